@@ -537,7 +537,13 @@ func (ev *specEnv) evalLoc(n *specNode) Ptr {
 			}
 		}
 		base := ev.expr(e.X, n)
-		p := x.asPtr(base)
+		var p Ptr
+		if _, isSt := base.(St); isSt {
+			// a field of a struct-valued field: the location is inside the enclosing object
+			p = ev.evalLoc(&specNode{e: e.X, ph: n.ph, text: n.text})
+		} else {
+			p = x.asPtr(base)
+		}
 		u, ok := p.Elem.Underlying().(*types.Struct)
 		if !ok {
 			fail("location %s: not a struct", n.text)
